@@ -11,7 +11,7 @@ LEAN_PROOF_TARGETS = ["PyroProps.C10"]
 AUDIT_FILES = ["PyroModel/Streams.lean", "PyroModel/StreamsRace.lean", "PyroModel/Lock.lean", "PyroModel/Gen/C10.lean",
                "PyroProofs/Streams.lean", "PyroProofs/StreamsRace.lean", "PyroProofs/Lock.lean", "PyroProps/C10.lean"]
 THEOREMS = ["Pyro.C10.C10_gen_facts", "Pyro.C10.C10_gen_removal_tolerant", "Pyro.C10.C10_gen_housekeeping_locked",
-            "Pyro.C10.C10_prefix", "Pyro.C10.C10_next_exact", "Pyro.C10.C10_end", "Pyro.C10.C10_forgotten",
+            "Pyro.C10.C10_gen_environment", "Pyro.C10.C10_prefix", "Pyro.C10.C10_next_exact", "Pyro.C10.C10_end", "Pyro.C10.C10_forgotten",
             "Pyro.C10.C10_forget_conditions", "Pyro.C10.C10_resume", "Pyro.C10.C10_quiescent", "Pyro.C10.C10_expiry_empties",
             "Pyro.C10.C10_client_refines", "Pyro.C10.C10_client_exact", "Pyro.C10.C10_client_close_forgets",
             "Pyro.C10.C10_sched_prefix", "Pyro.C10.C10_sched_no_masking", "Pyro.C10.C10_sched_strict_masks",
@@ -34,7 +34,8 @@ ASSUMPTIONS = ["uuid4 stream ids are never repeated (model: a counter)",
                "a single dict operation and a single next() of one iterator are atomic (GIL); two threads never call next() on the same stream at once",
                "the daemon is not shutting down (housekeeping returns early then)",
                "iterator exceptions are subclasses of Exception (BaseException escapes `except Exception` and is outside the alphabet)"]
-TRUSTED = ["harness/sched.py (deterministic scheduler, instrumented stream-table dict)",
+TRUSTED = ["harness/props/c10_wire.py: real multiplex server thread + real proxies over a unix socket, synchronised by completed round trips",
+           "harness/sched.py (deterministic scheduler, instrumented stream-table dict)",
            "the fake proxy of harness/props/c10.py stands for Proxy._pyroInvoke (connect on demand, 16-bit sequence number, forwards to the daemon object)"]
 
 EXPECTED_COMPARES = ["config.ITER_STREAM_LINGER > 0", "config.ITER_STREAM_LIFETIME > 0",
@@ -143,6 +144,27 @@ def extract():
     hook_calls = [n for n in ast.walk(disc) if is_hook(n)]
     last = disc.body[-1]
     hook_last = len(hook_calls) == 1 and isinstance(last, ast.Expr) and is_hook(last.value)
+    # how a new stream gets its id (the model: a fresh id that depends on nothing the client sends)
+    sr = _find_func(stree, "Daemon", "_streamResponse")
+    id_exprs = [ast.unparse(n.value) for n in ast.walk(sr) if isinstance(n, ast.Assign)
+                and any(isinstance(t, ast.Name) and t.id == "stream_id" for t in n.targets)]
+    if len(id_exprs) != 1:
+        raise ValueError("source shape: stream id assignment in _streamResponse not found")
+    # who runs housekeeping: the multiplex server after every batch of events (last statement of events(), outside the loop)
+    # and in the idle branch of loop(); the thread-pool server's Housekeeper thread
+    from Pyro5 import svr_multiplex, svr_threads
+
+    def is_hk(n):
+        return isinstance(n, ast.Expr) and isinstance(n.value, ast.Call) and isinstance(n.value.func, ast.Attribute) \
+            and n.value.func.attr == "_housekeeping"
+    mtree = ast.parse(open(svr_multiplex.__file__).read())
+    mux_events = _find_func(mtree, "SocketServer_Multiplex", "events")
+    mux_loop = _find_func(mtree, "SocketServer_Multiplex", "loop")
+    ttree = ast.parse(open(svr_threads.__file__).read())
+    hk_run = _find_func(ttree, "Housekeeper", "run")
+    mux_events_hk = is_hk(mux_events.body[-1])
+    mux_idle_hk = any(is_hk(n) for n in ast.walk(mux_loop))
+    thread_hk = any(is_hk(n) for n in ast.walk(hk_run))
 
     def milli(x):
         return int(round(float(x) * 1000))
@@ -165,6 +187,13 @@ def clientStopCatches : List String := {json.dumps(client_stop)}
 def hkLockInside : Nat := {inside}
 /-- `self.clientDisconnect(conn)` (user hook, may raise) is called once, as the LAST statement of `_clientDisconnect` -/
 def disconnectHookLast : Bool := {"true" if hook_last else "false"}
+/-- the expression assigned to `stream_id` in `_streamResponse` -/
+def streamIdExpr : String := {json.dumps(id_exprs[0])}
+/-- `SocketServer_Multiplex.events` ends (after its loop over the sockets) with `self.daemon._housekeeping()` -/
+def muxEventsHousekeeps : Bool := {"true" if mux_events_hk else "false"}
+/-- `SocketServer_Multiplex.loop` calls `_housekeeping` (idle branch); `svr_threads.Housekeeper.run` calls `_housekeeping` -/
+def muxIdleHousekeeps : Bool := {"true" if mux_idle_hk else "false"}
+def threadHousekeeperRuns : Bool := {"true" if thread_hk else "false"}
 def hkLockOutside : Nat := {outside}
 /-- configuration defaults (seconds * 1000) -/
 def defaultStreaming : Bool := {"true" if cfg.ITER_STREAMING else "false"}
@@ -203,6 +232,10 @@ class VClock:
 
     def __getattr__(self, name):
         return getattr(self._real, name)
+
+
+import uuid as _uuid
+FIXED_CORR = _uuid.UUID(int=0x5eed5eed5eed5eed5eed5eed5eed5eed)
 
 
 class FakeConn:
@@ -304,6 +337,7 @@ class World:
         self.reset(0)
 
     def reset(self, t0):
+        self.corr = "fresh"
         self.daemon.hook_fails = False
         self.daemon.streaming_responses = {}
         self.clock.now = t0
@@ -329,7 +363,13 @@ class World:
     # -- server operations (each is one call into the real code) -------------------------------------
     def open(self, conn, data):
         """daemon._streamResponse(data, conn) as handleRequest calls it (server.py 460 / 486)"""
+        import uuid
+        from Pyro5.server import current_context
         self.server_events += 1
+        # handleRequest (server.py 404-407): the correlation id of the request comes from the wire if the client sent one
+        # (client-controlled: here the SAME id on every request), otherwise it is a fresh uuid4
+        current_context.correlation_id = FIXED_CORR if self.corr == "fixed" else uuid.uuid4()
+        current_context.client = conn
         if data is None:
             return self.daemon._streamResponse([1, 2, 3] if conn.idx % 2 else {"a": 1}.keys(), conn)
         items, kind = data
@@ -449,7 +489,10 @@ def make_world():
     world = World(daemon, clock, _seq_mask())
     saved = (config.ITER_STREAMING, config.ITER_STREAM_LIFETIME, config.ITER_STREAM_LINGER)
 
+    saved_corr = server.current_context.correlation_id
+
     def restore():
+        server.current_context.correlation_id = saved_corr
         config.ITER_STREAMING, config.ITER_STREAM_LIFETIME, config.ITER_STREAM_LINGER = saved
         server.time = old_time
         world.daemon.streaming_responses = {}
@@ -485,7 +528,8 @@ def gen_history(rng):
     cfg = {"streaming": rng.random() < 0.93,
            "lifetime": rng.choice([0, 0, -2, 5, 20]),
            "linger": rng.choice([0, -3, 4, 4, 30]),
-           "hook": rng.random() < 0.3}      # the daemon's clientDisconnect hook raises
+           "hook": rng.random() < 0.3,      # the daemon's clientDisconnect hook raises
+           "corr": rng.choice(["fresh", "fixed"])}   # the client sends one fixed correlation id with every request / none
     t0 = rng.choice([0, 1, 7, 1000])
     nprox = rng.randint(1, 3)
     seq0 = rng.choice([0, 0, 3, 65532, 65534, 65535])
@@ -647,6 +691,7 @@ def run_history_real(world, h, ctx=None, judge=True):
     config.ITER_STREAMING, config.ITER_STREAM_LIFETIME, config.ITER_STREAM_LINGER = cfg["streaming"], cfg["lifetime"], cfg["linger"]
     world.reset(h["t0"])
     world.daemon.hook_fails = bool(cfg.get("hook"))
+    world.corr = cfg.get("corr", "fresh")
     proxies = [FakeProxy(world, h["seq0"]) for _ in range(h["nprox"])]
     iters = []          # the real _StreamResultIterator objects (kept alive: __del__ would close them)
     iter_stream = []    # client iterator -> stream index
@@ -691,6 +736,9 @@ def run_history_real(world, h, ctx=None, judge=True):
 
     def obs_open(conn, data):
         r = orig_open(conn, data)
+        if data is not None and r[0] and r[1] and world.stream_ids.count(r[1]) > 1:
+            bad("seq:stream-id-reused", "a new stream got the id of stream %d, which the server still knows: the two streams now "
+                "share one table entry (the requests carried the same correlation id)" % world.stream_ids.index(r[1]))
         if data is not None and r[0] and r[1]:
             spec.open(len(world.stream_ids) - 1, data[0], conn.idx, world.clock.now)
         return r
@@ -858,19 +906,21 @@ def correspondence(ctx):
     """C and D in one loop: every generated history / explored schedule is executed once on the real code; its canonical
     output is compared with the model (C) and judged against the property by the model-independent checks (D)."""
     common.repo_on_path()
-    from props import c10_race
+    from props import c10_race, c10_wire
     _histories(ctx, ctx.n(2500, 60000))
     c10_race.interleavings(ctx, corr=True)
+    c10_wire.wire(ctx, ctx.n(120, 4000))
     ctx._c10_judged = True
 
 
 def oracle(ctx):
     common.repo_on_path()
-    from props import c10_race
+    from props import c10_race, c10_wire
     if not getattr(ctx, "_c10_judged", False) or ctx.search_mode:
         # the model did not build (no correspondence run), or something is broken: judge the real code on its own
         _histories(ctx, ctx.n(1500, 20000), judge_only=True)
         c10_race.interleavings(ctx, corr=False)
+        c10_wire.wire(ctx, ctx.n(120, 4000))
         ctx._c10_judged = True
 
 
@@ -891,5 +941,8 @@ def replay(ctx, case):
             restore()
     if c.get("kind") == "race":
         return c10_race.replay_case(c)
+    if c.get("kind") == "wire":
+        from props import c10_wire
+        return c10_wire.replay_case(c)
     print(json.dumps(case.get("no_longer_checks")))
     return 1 if f else 0
